@@ -976,11 +976,12 @@ Proof.
       rewrite app_length. unfold md_write_eol at 1. rewrite !app_length. cbn [length]. lia. }
     assert (1 <= length (md_write_eol t ps sep eol))%nat by (unfold md_write_eol; rewrite !app_length; cbn [length]; lia).
     lia. }
-  replace (S (length d)) with (length rules + S (length d - length rules))%nat by lia.
-  unfold d at 2. rewrite (rules_loop_write_rules_eol rules _ (length d) _ Hr).
-  pose proof (rules_loop_write_eol (length d - length rules) false (length d) t ps sep eol [] Ht Hps (fun _ => eq_refl)) as H.
+  remember (length d) as n eqn:En. clear En.
+  replace (S n) with (length rules + S (n - length rules))%nat by lia.
+  unfold d. rewrite (rules_loop_write_rules_eol rules _ n _ Hr).
+  pose proof (rules_loop_write_eol (n - length rules) false n t ps sep eol [] Ht Hps (fun _ => eq_refl)) as H.
   rewrite app_nil_r in H. rewrite H.
-  destruct (length d - length rules)%nat as [|n] eqn:E; [lia|]. cbn [rules_loop skip_ws].
+  destruct (n - length rules)%nat as [|m] eqn:E; [lia|]. cbn [rules_loop skip_ws].
   rewrite md_deps_app. f_equal.
   - clear. induction rules as [|r rs IH]; [reflexivity|]. cbn [flat_map]. rewrite md_deps_app, md_deps_rule_events, IH. reflexivity.
   - change (RuleStart (md_escape t) t :: dep_events ps ++ [RuleEnd]) with ([RuleStart (md_escape t) t] ++ dep_events ps ++ [RuleEnd]).
